@@ -844,7 +844,26 @@ def check_identity_with_sim(chk):
         chk.unrecognised[before_u:] = keep
 
 
+def check_budget(chk, rule='C09.B'):
+    """E9r: whole programs (functions called directly, recursively, through variables / systemPartial and as callbacks of library functions) evaluated under every limit"""
+    from ..progsim import run_budget
+    n, problems = run_budget(chk.repo, chk.tier, rule)
+    rmod = chk.repo.module('runtime')
+    seen = set()
+    for desc, msg in problems:
+        if desc in seen or len(seen) >= 3:
+            continue
+        seen.add(desc)
+        chk.bad(rule, rmod, 'execute_script', f'budget: {desc}', f'whole-program evaluation under statement limits: {msg} ({len(problems)} programs deviate)')
+    if not problems:
+        chk.ok(rule, f'{n} runs: each program unlimited (N statements, at least the statements the structured reading starts) and under the limits 1..N+2 (sampled for large N): '
+               f'limit >= N and 0 reproduce the run and its count, limit L < N aborts with the limit error at count L + 1 with a prefix of the logs', count=n)
+    return not problems
+
+
 def run(chk):
+    chk.rule('C09.B', 'whole programs evaluated (E9r) under every statement limit: exact abort point, prefix, monotonicity; script functions however invoked are counted', floor=150)
+    chk.guard('C09.B', check_budget, chk)
     chk.rule('C09.D', 'increment (+1, read-modify-write on the shared dict) and limit test dominate the dispatch', floor=3)
     chk.rule('C09.T', 'abort condition = (limit > 0 and count > limit) over 6 abstract cases; error class/message; positive default', floor=8)
     chk.rule('C09.W', 'who writes the counter key: reset, increment, write-backs only', floor=3)
